@@ -3,10 +3,11 @@ Import ListNotations.
 From LSConc Require Import Clock.
 
 Record msg := { val : nat; view : clock; wt : nat; we : nat }.
-Record th := { clk : clock; pend : clock; refs : nat; excl : bool; mustfree : bool; started : bool }.
+Record th := { clk : clock; pend : clock; refs : nat; excl : bool; mustfree : bool; started : bool;
+                lend : nat (* 0: not borrowing; S p: reads through a &handle lent by thread p *) }.
 Record st := { msgs : list msg (* newest first *); Wc : clock; Rc : clock; live : bool; ths : list th }.
 
-Definition dth : th := {| clk := []; pend := []; refs := 0; excl := false; mustfree := false; started := false |}.
+Definition dth : th := {| clk := []; pend := []; refs := 0; excl := false; mustfree := false; started := false; lend := 0 |}.
 Definition dmsg : msg := {| val := 0; view := []; wt := 0; we := 0 |}.
 Definition getth (s : st) (t : nat) : th := nth t (ths s) dth.
 Definition hdm (s : st) : msg := hd dmsg (msgs s).
@@ -24,12 +25,16 @@ Definition hbb (m : msg) (c : clock) : bool := Nat.leb (we m) (get c (wt m)).
 Definition hb (m : msg) (c : clock) : Prop := we m <= get c (wt m).
 
 Inductive act := ARead | AWrite | AClone | ARelease | AFree | AProbe (p : nat) | ASpawn (c k : nat) | AJoin (c : nat)
-                 | AFence | AReadM.
+                 | AFence | AReadM
+                 | ALend (c : nat) | AReadB | AJoinB (c : nat).
 Inductive err := Race | UAF | DoubleFree.
 Inductive res := Ok (s : st) | Err (e : err) | Stuck.
 
 Definition with_th (s : st) (t : nat) (x : th) : st :=
   {| msgs := msgs s; Wc := Wc s; Rc := Rc s; live := live s; ths := upd (ths s) t x |}.
+
+(* does thread p currently lend its handle to some thread? *)
+Definition lends_from (s : st) (p : nat) : bool := existsb (fun x => Nat.eqb (lend x) (S p)) (ths s).
 
 Definition step (s : st) (t : nat) (a : act) : res :=
   if negb (Nat.ltb t (length (ths s))) then Stuck else
@@ -43,15 +48,15 @@ Definition step (s : st) (t : nat) (a : act) : res :=
       let c' := tick (clk x) t in
       Ok {| msgs := msgs s; Wc := Wc s; Rc := setc (Rc s) t (get c' t); live := live s;
             ths := upd (ths s) t {| clk := c'; pend := pend x; refs := refs x; excl := excl x;
-                                    mustfree := mustfree x; started := true |} |}
+                                    mustfree := mustfree x; started := true; lend := lend x |} |}
   | AWrite =>
-      if negb (excl x) then Stuck else
+      if negb (excl x) || lends_from s t then Stuck else
       if negb (live s) then Err UAF else
       if negb (cleb (Wc s) (clk x) && cleb (Rc s) (clk x)) then Err Race else
       let c' := tick (clk x) t in
       Ok {| msgs := msgs s; Wc := setc (Wc s) t (get c' t); Rc := Rc s; live := live s;
             ths := upd (ths s) t {| clk := c'; pend := pend x; refs := refs x; excl := excl x;
-                                    mustfree := mustfree x; started := true |} |}
+                                    mustfree := mustfree x; started := true; lend := lend x |} |}
   | AClone =>
       if negb (Nat.ltb 0 (refs x)) then Stuck else
       if negb (live s) then Err UAF else
@@ -59,15 +64,15 @@ Definition step (s : st) (t : nat) (a : act) : res :=
       let m := {| val := S (val (hdm s)); view := view (hdm s); wt := t; we := get c' t |} in
       Ok {| msgs := m :: msgs s; Wc := Wc s; Rc := Rc s; live := live s;
             ths := upd (ths s) t {| clk := c'; pend := join (pend x) (view (hdm s)); refs := S (refs x);
-                                    excl := false; mustfree := mustfree x; started := true |} |}
+                                    excl := false; mustfree := mustfree x; started := true; lend := lend x |} |}
   | ARelease =>
-      if negb (Nat.ltb 0 (refs x)) || mustfree x then Stuck else
+      if negb (Nat.ltb 0 (refs x)) || mustfree x || lends_from s t then Stuck else
       if negb (live s) then Err UAF else
       let c' := tick (clk x) t in
       let m := {| val := val (hdm s) - 1; view := join (view (hdm s)) c'; wt := t; we := get c' t |} in
       Ok {| msgs := m :: msgs s; Wc := Wc s; Rc := Rc s; live := live s;
             ths := upd (ths s) t {| clk := c'; pend := join (pend x) (view (hdm s)); refs := refs x - 1;
-                                    excl := false; mustfree := Nat.eqb (val (hdm s)) 1; started := true |} |}
+                                    excl := false; mustfree := Nat.eqb (val (hdm s)) 1; started := true; lend := lend x |} |}
   | AFree =>
       (* dealloc: only by the thread whose decrement read 1, and only after its acquire fence (pend <= clk) *)
       if negb (mustfree x && cleb (pend x) (clk x)) then Stuck else
@@ -76,9 +81,9 @@ Definition step (s : st) (t : nat) (a : act) : res :=
       if negb (cleb (Wc s) c' && cleb (Rc s) c') then Err Race else
       Ok {| msgs := msgs s; Wc := Wc s; Rc := Rc s; live := false;
             ths := upd (ths s) t {| clk := c'; pend := pend x; refs := refs x; excl := false;
-                                    mustfree := false; started := true |} |}
+                                    mustfree := false; started := true; lend := lend x |} |}
   | AProbe p =>
-      if negb (Nat.ltb 0 (refs x)) then Stuck else
+      if negb (Nat.ltb 0 (refs x)) || lends_from s t then Stuck else
       if negb (live s) then Err UAF else
       match nth_error (msgs s) p with
       | None => Stuck
@@ -86,25 +91,26 @@ Definition step (s : st) (t : nat) (a : act) : res :=
           if negb (forallb (fun m' => negb (hbb m' (clk x))) (firstn p (msgs s))) then Stuck else
           let c' := tick (join (clk x) (view m)) t in
           Ok (with_th s t {| clk := c'; pend := pend x; refs := refs x; excl := excl x || Nat.eqb (val m) 1;
-                             mustfree := mustfree x; started := true |})
+                             mustfree := mustfree x; started := true; lend := lend x |})
       end
   | ASpawn c k =>
       if Nat.eqb c t || negb (Nat.ltb c (length (ths s))) || started (getth s c) || negb (Nat.leb k (refs x))
+         || lends_from s t
       then Stuck else
       let cp := tick (clk x) t in
       let s1 := with_th s t {| clk := cp; pend := pend x; refs := refs x - k; excl := false;
-                               mustfree := mustfree x; started := true |} in
-      Ok (with_th s1 c {| clk := tick cp c; pend := []; refs := k; excl := false; mustfree := false; started := true |})
+                               mustfree := mustfree x; started := true; lend := lend x |} in
+      Ok (with_th s1 c {| clk := tick cp c; pend := []; refs := k; excl := false; mustfree := false; started := true; lend := 0 |})
   | AJoin c =>
       let y := getth s c in
       if Nat.eqb c t || negb (started y) || Nat.ltb 0 (refs y) || mustfree y then Stuck else
       Ok (with_th s t {| clk := tick (join (clk x) (clk y)) t; pend := pend x; refs := refs x; excl := excl x;
-                         mustfree := mustfree x; started := true |})
+                         mustfree := mustfree x; started := true; lend := lend x |})
   | AFence =>
       (* fence(Acquire): everything released by the messages this thread's relaxed/release RMWs read from becomes
          visible to it *)
       Ok (with_th s t {| clk := join (clk x) (pend x); pend := pend x; refs := refs x; excl := excl x;
-                         mustfree := mustfree x; started := true |})
+                         mustfree := mustfree x; started := true; lend := lend x |})
   | AReadM =>
       (* read (of the header) by the thread that must free, after its fence and before the dealloc *)
       if negb (mustfree x && cleb (pend x) (clk x)) then Stuck else
@@ -113,7 +119,35 @@ Definition step (s : st) (t : nat) (a : act) : res :=
       let c' := tick (clk x) t in
       Ok {| msgs := msgs s; Wc := Wc s; Rc := setc (Rc s) t (get c' t); live := live s;
             ths := upd (ths s) t {| clk := c'; pend := pend x; refs := refs x; excl := excl x;
-                                    mustfree := mustfree x; started := true |} |}
+                                    mustfree := mustfree x; started := true; lend := lend x |} |}
+  | ALend c =>
+      (* a scoped thread is given &handle: it may read through it; the lender keeps its reference and, while
+         the loan lasts, only reads, clones, lends again, fences and joins (no &mut method: borrowck) *)
+      if Nat.eqb c t || negb (Nat.ltb c (length (ths s))) || started (getth s c) || negb (Nat.ltb 0 (refs x))
+         || negb (Nat.eqb (lend x) 0)
+      then Stuck else
+      let cp := tick (clk x) t in
+      let s1 := with_th s t {| clk := cp; pend := pend x; refs := refs x; excl := false;
+                               mustfree := mustfree x; started := true; lend := 0 |} in
+      Ok (with_th s1 c {| clk := tick cp c; pend := []; refs := 0; excl := false; mustfree := false; started := true;
+                          lend := S t |})
+  | AReadB =>
+      if Nat.eqb (lend x) 0 then Stuck else
+      if negb (live s) then Err UAF else
+      if negb (cleb (Wc s) (clk x)) then Err Race else
+      let c' := tick (clk x) t in
+      Ok {| msgs := msgs s; Wc := Wc s; Rc := setc (Rc s) t (get c' t); live := live s;
+            ths := upd (ths s) t {| clk := c'; pend := pend x; refs := refs x; excl := excl x;
+                                    mustfree := mustfree x; started := true; lend := lend x |} |}
+  | AJoinB c =>
+      (* the scope ends: the borrower (which has dropped every clone it made) is joined *)
+      let y := getth s c in
+      if Nat.eqb c t || negb (Nat.ltb c (length (ths s))) || negb (Nat.eqb (lend y) (S t)) || Nat.ltb 0 (refs y) || mustfree y
+      then Stuck else
+      let s1 := with_th s t {| clk := tick (join (clk x) (clk y)) t; pend := pend x; refs := refs x; excl := excl x;
+                               mustfree := mustfree x; started := true; lend := lend x |} in
+      Ok (with_th s1 c {| clk := clk y; pend := pend y; refs := refs y; excl := excl y; mustfree := mustfree y;
+                          started := started y; lend := 0 |})
   end.
 
 (* initial state: thread 0 allocated the buffer *)
@@ -121,7 +155,7 @@ Definition init (n : nat) : st :=
   let c0 := single 0 1 in
   {| msgs := [ {| val := 1; view := c0; wt := 0; we := 1 |} ]; Wc := c0; Rc := [];
      live := true;
-     ths := {| clk := c0; pend := []; refs := 1; excl := false; mustfree := false; started := true |}
+     ths := {| clk := c0; pend := []; refs := 1; excl := false; mustfree := false; started := true; lend := 0 |}
             :: repeat dth n |}.
 
 Fixpoint run (s : st) (l : list (nat * act)) : res :=
